@@ -70,7 +70,13 @@ def run(chk):
             for p in s["diff"]:
                 pp = path_of(p)
                 first = files[pp].split("\n")[0]
-                diff += "diff --git a/%s b/%s\nindex 1..2 100644\n--- a/%s\n+++ b/%s\n@@ -1 +1 @@\n-old\n+%s\n" % (pp, pp, pp, pp, first)
+                if (i + len(diff)) % 3 == 0:
+                    # the file was renamed (or copied) and edited: git names the old path on the --- side
+                    oldp = "old_place/" + pp.replace("/", "_")
+                    diff += ("diff --git a/%s b/%s\nsimilarity index 80%%\nrename from %s\nrename to %s\nindex 1..2 100644\n"
+                             "--- a/%s\n+++ b/%s\n@@ -1 +1 @@\n-old\n+%s\n" % (oldp, pp, oldp, pp, oldp, pp, first))
+                else:
+                    diff += "diff --git a/%s b/%s\nindex 1..2 100644\n--- a/%s\n+++ b/%s\n@@ -1 +1 @@\n-old\n+%s\n" % (pp, pp, pp, pp, first)
         cid = "s%d" % i
         cases.append({"id": cid, "files": files, "diff": diff, "args": args, "terminal": s["terminal"], "cwd": CWDS[i % len(CWDS)] or None})
         meta[cid] = (s, exp)
